@@ -4,13 +4,14 @@ use crate::support::*;
 use educe::Educe;
 use core::cmp::Ordering;
 #[derive(Educe)]
-#[educe(PartialOrd, PartialEq, Eq)]
-pub enum T { C(#[educe(PartialOrd(rank("-2")))] u8), Some, B(#[educe(PartialOrd(rank = 8i64))] char, Option<u8>, #[educe(PartialOrd(rank(0)))] u8) }
+#[repr(i64)]
+#[educe(Eq, PartialEq, PartialOrd)]
+pub enum T { V1 { #[educe(PartialOrd(rank(5)))] data: bool } = 1000, C { f: bool, builder: i64 } = 100, Unit = 70000 }
 
-pub fn values() -> Vec<T> { vec![T::C(0), T::C(100), T::C(200), T::Some, T::B('a', Some(255), 100), T::B('z', Some(255), 0), T::B('a', Some(0), 0), T::B('a', None, 200), T::B('z', Some(0), 0), T::B('a', Some(0), 200), T::B('a', None, 100), T::B('z', Some(0), 200), T::B('a', Some(255), 200), T::B('z', None, 100), T::B('z', None, 0), T::B('a', Some(255), 0)] }
-pub fn show(x: &T) -> String { #[allow(unused_variables)] match x { T::C(p0) => format!("C({})", sv(p0)), T::Some => format!("Some()"), T::B(p0, p1, p2) => format!("B({},{},{})", sv(p0), sv(p1), sv(p2)) } }
-pub fn o_disc(x: &T) -> i128 { match x { T::C(_) => 0, T::Some => 1, T::B(_, _, _) => 2 } }
-pub fn o_pcmp(a: &T, b: &T) -> Option<Ordering> { match (a, b) { (T::C(a0), T::C(b0)) => { match ::core::cmp::PartialOrd::partial_cmp(a0, b0) { Some(Ordering::Equal) => (), x => return x } Some(Ordering::Equal) }, (T::Some, T::Some) => {  Some(Ordering::Equal) }, (T::B(a0, a1, a2), T::B(b0, b1, b2)) => { match ::core::cmp::PartialOrd::partial_cmp(a1, b1) { Some(Ordering::Equal) => (), x => return x } match ::core::cmp::PartialOrd::partial_cmp(a2, b2) { Some(Ordering::Equal) => (), x => return x } match ::core::cmp::PartialOrd::partial_cmp(a0, b0) { Some(Ordering::Equal) => (), x => return x } Some(Ordering::Equal) }, _ => Some(o_disc(a).cmp(&o_disc(b))) } }
+pub fn values() -> Vec<T> { vec![T::V1 { data: false }, T::V1 { data: true }, T::C { f: false, builder: -5 }, T::C { f: false, builder: 0 }, T::C { f: false, builder: 9 }, T::C { f: true, builder: -5 }, T::C { f: true, builder: 0 }, T::C { f: true, builder: 9 }, T::Unit] }
+pub fn show(x: &T) -> String { #[allow(unused_variables)] match x { T::V1 { data: p0 } => format!("V1({})", sv(p0)), T::C { f: p0, builder: p1 } => format!("C({},{})", sv(p0), sv(p1)), T::Unit => format!("Unit()") } }
+pub fn o_disc(x: &T) -> i128 { match x { T::V1 { data: _ } => 1000, T::C { f: _, builder: _ } => 100, T::Unit => 70000 } }
+pub fn o_pcmp(a: &T, b: &T) -> Option<Ordering> { match (a, b) { (T::V1 { data: a0 }, T::V1 { data: b0 }) => { match ::core::cmp::PartialOrd::partial_cmp(a0, b0) { Some(Ordering::Equal) => (), x => return x } Some(Ordering::Equal) }, (T::C { f: a0, builder: a1 }, T::C { f: b0, builder: b1 }) => { match ::core::cmp::PartialOrd::partial_cmp(a0, b0) { Some(Ordering::Equal) => (), x => return x } match ::core::cmp::PartialOrd::partial_cmp(a1, b1) { Some(Ordering::Equal) => (), x => return x } Some(Ordering::Equal) }, (T::Unit, T::Unit) => {  Some(Ordering::Equal) }, _ => Some(o_disc(a).cmp(&o_disc(b))) } }
 #[repr(C)] pub struct Wrap { pub pre: u8, pub x: T, pub post: [u8; 9] }
 pub fn wrap(i: usize, n: u8) -> Wrap { Wrap { pre: n, x: values().swap_remove(i), post: [n; 9] } }
 pub fn run(out: &mut Out) { let vs = values(); for (i, a) in vs.iter().enumerate() { for (j, b) in vs.iter().enumerate() { let e = o_pcmp(a, b); let g = ::core::cmp::PartialOrd::partial_cmp(a, b); out.check(g == e, "ordlayout_2", "partial_cmp", || format!("partial_cmp({}, {}) = {:?} expected {:?}", show(a), show(b), g, e)); for n in [0u8, 1, 0x7f, 0x80, 0xff] { let wa = wrap(i, n); let wb = wrap(j, !n); let g = ::core::cmp::PartialOrd::partial_cmp(&wa.x, &wb.x); let e = o_pcmp(a, b); out.check(g == e, "ordlayout_2", "cmp_neighbours", || format!("cmp({}, {}) with neighbour bytes {} = {:?} expected {:?}", show(a), show(b), n, g, e)); } } } }
